@@ -69,3 +69,9 @@ CHECKS["C16"] = ("property-based testing at two entry points: rapidcheck API har
 CHECKS["C28"] = ("in-process stateful property-based testing (rapidcheck sequences of constructor calls against a map model of identities)",
                  "Generated sequences of term constructions with re-construction and permuted commutative arguments; identity, printing injectivity and subterm-before-term order are checked after every sequence. Exploration only.",
                  "own model of (constructor, arguments) -> identity", "DESIGN.md §4 C28")
+CHECKS["C24"] = ("in-process property-based testing with real threads under ThreadSanitizer and ASan/UBSan (rapidcheck-drawn instance sets and start delays)",
+                 "Weak by nature: interleavings are sampled by the OS scheduler, not enumerated. Concurrent answers must equal solo answers and no sanitizer may report. Exploration only.",
+                 "TSan happens-before detection on the executions that occur; solo run as reference", "DESIGN.md §4 C24, §7")
+CHECKS["C25"] = ("in-process property-based testing with a stopper thread at generated delays under ThreadSanitizer and ASan/UBSan",
+                 "Weak by nature: the moment of the stop request is sampled (landing point measured). Result must be unknown or the solo answer, no sanitizer report. Exploration only.",
+                 "TSan happens-before detection; solo run as reference", "DESIGN.md §4 C25, §7")
